@@ -221,7 +221,7 @@ def getTask (k : TaskKey) : M Offer := do
       let itemsV ← liftOpt (E.eval its.items ec) .expr
       match itemsV with
       | .list xs =>
-        (xs.zipIdx).mapM fun (x, i) => do
+        mapM' (xs.zipIdx) fun (x, i) => do
           let item : Val := match its.key with
             | some key => .dict [(key, x)]
             | none => x
@@ -246,6 +246,20 @@ def getTask (k : TaskKey) : M Offer := do
     pure { id := k.1, route := k.2, actions := actions, delay := delay,
            itemsCount := some actions.length, concurrency := some conc, ctx := vars }
 
+/-- number of items whose action is in an active status -/
+def activeCount (items : List Status) : Nat := (items.filter Status.isActive).length
+
+/-- the actions of the items that have not run yet, in item order -/
+def notRun {α} (actions : List α) (items : List Status) : List α :=
+  ((actions.zip items).filter fun p => p.2 == .unset).map (·.1)
+
+/-- the with-items window: which of the not-yet-run items are offered now.
+    `conc = none`: no concurrency limit; a limit below 1 counts as 1. -/
+def selectItems {α} (actions : List α) (items : List Status) (conc : Option Int) : List α :=
+  match conc with
+  | some cc => (notRun actions items).take (((if cc ≤ 0 then 1 else cc) - (activeCount items : Int)).toNat)
+  | none => notRun actions items
+
 /-- `_evaluate_task_actions(task)` -/
 def evaluateTaskActions (o : Offer) : M Offer := do
   match o.itemsCount with
@@ -260,17 +274,12 @@ def evaluateTaskActions (o : Offer) : M Offer := do
         | some its => if its.isEmpty then List.replicate n .unset else its
         | none => List.replicate n .unset
       modifySt fun st => st.updateStaged k fun x => { x with items := some items }
-      let all := o.actions.zip items
-      let notrun := all.filter fun p => p.2 == .unset
-      let active := all.filter fun p => p.2.isActive
       match o.concurrency with
       | some (.int cc) =>
-        let cc : Int := if cc ≤ 0 then 1 else cc
-        let avail : Int := cc - active.length
-        let acts := if avail > 0 then (notrun.take avail.toNat).map (·.1) else []
-        pure { o with actions := acts, concurrency := some (.int cc) }
-      | some .null => pure { o with actions := notrun.map (·.1) }
-      | none => pure { o with actions := notrun.map (·.1) }
+        pure { o with actions := selectItems o.actions items (some cc),
+                      concurrency := some (.int (if cc ≤ 0 then 1 else cc)) }
+      | some .null => pure { o with actions := selectItems o.actions items none }
+      | none => pure { o with actions := selectItems o.actions items none }
       | some _ => throw .typeError
 
 def insOffer (x : Offer) : List Offer → List Offer
@@ -280,20 +289,24 @@ def insOffer (x : Offer) : List Offer → List Offer
 
 def sortOffers (xs : List Offer) : List Offer := xs.foldl (fun acc x => insOffer x acc) []
 
+/-- the retry delay of a re-staged entry overrides the task delay -/
+def withRetryDelay (sx : Staged) (o : Offer) : Offer :=
+  match sx.retry with
+  | some r =>
+    let d : Val := match r.delay with
+      | .val v => if v.truthy then v else .int 0
+      | .expr _ => .str "<expr>"
+      | .none_ => .int 0
+    { o with delay := some d }
+  | none => o
+
 /-- one staged entry of `get_next_tasks`: returns the offer (if any) or logs the error -/
 def nextTaskFor (sx : Staged) : M (Option Offer × Bool) :=
   tryCatch
     (do
       let o ← getTask E (sx.id, sx.route)
       let o ← evaluateTaskActions o
-      let o := match sx.retry with
-        | some r =>
-          let d : Val := match r.delay with
-            | .val v => if v.truthy then v else .int 0
-            | .expr _ => .str "<expr>"
-            | .none_ => .int 0
-          { o with delay := some d }
-        | none => o
+      let o := withRetryDelay sx o
       if !o.actions.isEmpty then pure (some o, false)
       else if o.itemsCount == some 0 then pure (some o, false)
       else pure (none, false))
@@ -301,20 +314,24 @@ def nextTaskFor (sx : Staged) : M (Option Offer × Bool) :=
       logError e.className (some sx.id) (some sx.route)
       pure (none, true))
 
-def getNextTasks : M (List Offer) := do
-  let c ← get
-  let staged := c.st.readyStaged
-  let remediation := if c.st.status == .failed then staged.filter (·.runOnFail) else []
-  if !c.st.status.isRunning && remediation.isEmpty then pure []
-  else do
-    let todo := if remediation.isEmpty then staged else remediation
-    let (offers, failed) ← foldM' todo (([] : List Offer), false) fun acc sx => do
-      let (o, f) ← nextTaskFor E sx
-      pure (match o with | some o => acc.1 ++ [o] | none => acc.1, acc.2 || f)
-    if failed then do
-      requestStatus .failed
-      pure []
-    else pure (sortOffers offers)
+/-- the staged entries `get_next_tasks` looks at: the ready ones while the workflow is in a
+    running status; the run-on-fail ones of a failed workflow; none otherwise -/
+def nextTodo (st : WState) : List Staged :=
+  let staged := st.readyStaged
+  let remediation := if st.status == .failed then staged.filter (·.runOnFail) else []
+  if !st.status.isRunning && remediation.isEmpty then []
+  else if remediation.isEmpty then staged else remediation
+
+def nextFrom (todo : List Staged) : M (List Offer) := do
+  let (offers, failed) ← foldM' todo (([] : List Offer), false) fun acc sx => do
+    let (o, f) ← nextTaskFor E sx
+    pure (match o with | some o => acc.1 ++ [o] | none => acc.1, acc.2 || f)
+  if failed then do
+    requestStatus .failed
+    pure []
+  else pure (sortOffers offers)
+
+def getNextTasks : M (List Offer) := fun c => nextFrom E (nextTodo c.st) c
 
 /-! ## update_task_state -/
 
@@ -380,25 +397,28 @@ def addTaskState (k : TaskKey) (ctxsIn : List Nat) (prev : List (TransId × Nat)
     modifySt fun st => (({ st with sequence := st.sequence ++ [r] } : WState).setTask k idx)
     pure idx
 
+/-- the task state machine's answer for an event on record `r` (item events look at the staged
+    entry's other items) -/
+def tkEventStep (c : Cond) (r : Rec) (ev : Event) : Except Err StepRes :=
+  let cur := r.status.getD .unset
+  match ev with
+  | .action s _ => .ok (tkOnActionEvent cur s)
+  | .engine cmd => .ok (tkOnEngineEvent cur cmd)
+  | .item idx s _ _ =>
+    match c.st.getStaged? (r.id, r.route) with
+    | none => .error .typeError
+    | some x => match x.items with
+      | none => .error .keyError
+      | some its =>
+        let sm := itemSummary (its.eraseIdx idx)
+        .ok (tkOnItemEvent cur s sm.1 sm.2.1 sm.2.2.1 sm.2.2.2.1 sm.2.2.2.2)
+
 /-- `TaskStateMachine.process_event(state, record, event)` for action / item / engine events -/
 def tkProcessEvent (i : Nat) (ev : Event) : M Unit := fun c =>
   match c.st.sequence[i]? with
   | none => (.error .indexError, c)
   | some r =>
-    let cur := r.status.getD .unset
-    let res : Except Err StepRes := match ev with
-      | .action s _ => .ok (tkOnActionEvent cur s)
-      | .engine cmd => .ok (tkOnEngineEvent cur cmd)
-      | .item idx s _ _ =>
-        match c.st.getStaged? (r.id, r.route) with
-        | none => .error .typeError
-        | some x => match x.items with
-          | none => .error .keyError
-          | some its =>
-            let others := its.eraseIdx idx
-            let (a, p, cn, f, inc) := itemSummary others
-            .ok (tkOnItemEvent cur s a p cn f inc)
-    match res with
+    match tkEventStep c r ev with
     | .error e => (.error e, c)
     | .ok (.raise e) => (.error (.machine e), c)
     | .ok (.ok s') =>
@@ -446,11 +466,56 @@ structure TransAcc where
   manualFail : Bool := false
   readyKeys : List TaskKey := []
 
+/-- stage (or merge into the staged entry of) the target of a satisfied transition -/
+def stageNext (k : TaskKey) (idx : Nat) (e : Edge) (outIdxs : List Nat) (acc : TransAcc) : M TransAcc := do
+  let nextRoute ← evaluateRoute e k.2
+  let nk : TaskKey := (e.dst, nextRoute)
+  let backref : TransId := (k.1, e.key)
+  let c ← get
+  (match c.st.getStaged? nk with
+    | some _ => do
+      let rest ← liftOpt (eraseFirst outIdxs 0) .valueError
+      modifySt fun st => st.updateStaged nk fun x =>
+        { x with ctxsIn := x.ctxsIn ++ rest, prev := setAssoc x.prev backref idx,
+                 items := none, completed := false }
+    | none =>
+      modifySt fun st => st.addStaged
+        { id := e.dst, route := nextRoute, ctxsIn := if outIdxs.isEmpty then [0] else outIdxs,
+          prev := [(backref, idx)], ready := false } : M Unit)
+  let c ← get
+  let ready := inboundStatus c e.dst k.2 == .satisfied
+  modifySt fun st => st.updateStaged nk fun x => { x with ready := ready }
+  if (Cmd.ofStr? e.dst).isSome then
+    pure { acc with queue := acc.queue ++ [nk], manualFail := acc.manualFail || e.dst == "fail" }
+  else if ready then pure { acc with readyKeys := acc.readyKeys ++ [nk] }
+  else pure acc
+
+/-- publish of a satisfied transition (`finalize_context`) and staging of its target -/
+def fireTransition (k : TaskKey) (idx : Nat) (ec : EvalCtx) (acc : TransAcc) (e : Edge) :
+    M TransAcc := do
+  let tid : TransId := (e.dst, e.key)
+  let c ← get
+  let ts ← liftOpt (c.spec.getTask? k.1) .keyError
+  let tr ← liftOpt ts.next[e.ref]? .indexError
+  let pubs := if tr.do_.contains e.dst then tr.publish else []
+  let (_, newCtx, nerr) := renderSeq E pubs (fun r => { ec with vars := r }) ec.vars
+  if nerr > 0 then do
+    logError "ExpressionEvaluationException" (some k.1) (some k.2) (some tid)
+    requestStatus .failed
+    pure acc
+  else do
+    let r ← liftOpt c.st.sequence[idx]? .indexError
+    let newIdx := c.st.contexts.length
+    let outIdxs := if newCtx.isEmpty then r.ctxsIn else r.ctxsIn ++ [newIdx]
+    (if newCtx.isEmpty then pure ()
+     else modifySt fun st => ({ st with contexts := st.contexts ++ [newCtx] } : WState).updateRec idx
+        fun r => { r with ctxsOut := some (tid, newIdx) } : M Unit)
+    stageNext k idx e outIdxs acc
+
 /-- body of the loop over outbound transitions for one transition -/
 def processTransition (k : TaskKey) (idx : Nat) (ec : EvalCtx) (acc : TransAcc) (e : Edge) :
     M TransAcc := do
   let tid : TransId := (e.dst, e.key)
-  -- criteria
   let crit : Option Bool := match e.criteria with
     | none => some true
     | some cnd => (E.eval cnd ec).map Val.truthy
@@ -462,47 +527,115 @@ def processTransition (k : TaskKey) (idx : Nat) (ec : EvalCtx) (acc : TransAcc) 
   | some b => do
     modifySt fun st => st.updateRec idx fun r => { r with next := setAssoc r.next tid b }
     if !b then pure acc
-    else do
-      let c ← get
-      -- finalize_context
-      let ts ← liftOpt (c.spec.getTask? k.1) .keyError
-      let tr ← liftOpt ts.next[e.ref]? .indexError
-      let pubs := if tr.do_.contains e.dst then tr.publish else []
-      let (_, newCtx, nerr) := renderSeq E pubs (fun r => { ec with vars := r }) ec.vars
-      if nerr > 0 then do
-        logError "ExpressionEvaluationException" (some k.1) (some k.2) (some tid)
-        requestStatus .failed
-        pure acc
-      else do
-        let r ← liftOpt c.st.sequence[idx]? .indexError
-        let newIdx := c.st.contexts.length
-        let outIdxs := if newCtx.isEmpty then r.ctxsIn else r.ctxsIn ++ [newIdx]
-        (if newCtx.isEmpty then pure ()
-         else modifySt fun st => ({ st with contexts := st.contexts ++ [newCtx] } : WState).updateRec idx
-            fun r => { r with ctxsOut := some (tid, newIdx) } : M Unit)
-        let nextRoute ← evaluateRoute e k.2
-        let nk : TaskKey := (e.dst, nextRoute)
-        let backref : TransId := (k.1, e.key)
-        let c ← get
-        match c.st.getStaged? nk with
-        | some _ => do
-          let rest ← liftOpt (eraseFirst outIdxs 0) .valueError
-          modifySt fun st => st.updateStaged nk fun x =>
-            { x with ctxsIn := x.ctxsIn ++ rest, prev := setAssoc x.prev backref idx,
-                     items := none, completed := false }
-        | none =>
-          modifySt fun st => st.addStaged
-            { id := e.dst, route := nextRoute, ctxsIn := if outIdxs.isEmpty then [0] else outIdxs,
-              prev := [(backref, idx)], ready := false }
-        let c ← get
-        let ready := inboundStatus c e.dst k.2 == .satisfied
-        modifySt fun st => st.updateStaged nk fun x => { x with ready := ready }
-        if (Cmd.ofStr? e.dst).isSome then
-          pure { acc with queue := acc.queue ++ [nk], manualFail := acc.manualFail || e.dst == "fail" }
-        else if ready then pure { acc with readyKeys := acc.readyKeys ++ [nk] }
-        else pure acc
+    else fireTransition E k idx ec acc e
 
 def isCmdName (s : String) : Bool := (Cmd.ofStr? s).isSome
+
+/-- the task result as `make_task_result` formats it -/
+def taskResult (ts : TaskSpec) (ev : Event) : Val :=
+  match ts.withItems, ev with
+  | none, .action _ res => res
+  | none, .item _ _ res _ => res
+  | none, .engine _ => .null
+  | some _, .item _ _ _ acc => (match acc with | some a => if a.truthy then a else .list [] | none => .list [])
+  | some _, .action _ res => if res.truthy then res else .list []
+  | some _, .engine _ => .list []
+
+/-- `make_task_context(record, result)` -/
+def makeTaskContext (k : TaskKey) (idx : Nat) (result : Val) : M EvalCtx := do
+  let c ← get
+  let r ← liftOpt c.st.sequence[idx]? .indexError
+  let vars ← liftExcept (c.st.taskContext r.ctxsIn)
+  pure { vars := vars, curTask := some k, result := some result, st := some c.st }
+
+/-- phase 1: find or create the record the event applies to -/
+def ensureRecord (k : TaskKey) (staged0 : Option Staged) (rec0 : Option Nat) (ev : Event) : M Nat := do
+  let idx ← (match rec0, isCmdName k.1 with
+    | some i, false => pure i
+    | _, _ => match staged0 with
+      | some sx => addTaskState E (k.1, sx.route) sx.ctxsIn sx.prev
+      | none => throw .typeError : M Nat)
+  -- a completed record receiving a starting status is a new cycle iteration
+  let c ← get
+  let r ← liftOpt c.st.sequence[idx]? .indexError
+  if r.status.any Status.isCompleted && ev.status.isStarting then
+    match staged0 with
+    | some sx => addTaskState E (k.1, sx.route) sx.ctxsIn sx.prev
+    | none => throw .typeError
+  else pure idx
+
+/-- phase 2: staging bookkeeping for the event and the failure log entry -/
+def noteEvent (k : TaskKey) (staged0 : Option Staged) (ev : Event) : M Unit := do
+  (match staged0 with
+    | some sx => if sx.items.isNone then modifySt fun st => st.removeStaged k else pure ()
+    | none => pure () : M Unit)
+  (match staged0, ev with
+    | some sx, .item i s _ _ =>
+      match sx.items with
+      | none => throw .keyError
+      | some its =>
+        if i < its.length then
+          modifySt fun st => st.updateStaged k fun x =>
+            { x with items := x.items.map fun l => l.set i s }
+        else throw .indexError
+    | _, _ => pure () : M Unit)
+  (match ev with
+    | .action .failed res => logEntry { kind := "ExecutionFailed", taskId := some k.1, result := some res }
+    | .item _ .failed res _ => logEntry { kind := "ExecutionFailed", taskId := some k.1, result := some res }
+    | .engine c => if c.eventStatus == .failed then
+        logEntry { kind := "ExecutionFailed", taskId := some k.1, result := none } else pure ()
+    | _ => pure () : M Unit)
+
+/-- phase 3: a record that became `retrying` is re-staged with a bumped tally -/
+def restageRetry (k : TaskKey) (idx : Nat) : M Unit := do
+  let c ← get
+  let r ← liftOpt c.st.sequence[idx]? .indexError
+  if r.status == some .retrying then do
+    let rs ← liftOpt r.retry .keyError
+    let rs := { rs with tally := rs.tally + 1 }
+    modifySt fun st => ((st.updateRec idx fun r => { r with retry := some rs }).removeStaged k).addStaged
+      { id := k.1, route := k.2, ctxsIn := if r.ctxsIn.isEmpty then [0] else r.ctxsIn,
+        prev := r.prev, ready := true, retry := some rs }
+  else pure ()
+
+/-- phase 4 (completed records): staging clean-up, then the retry decision; `true` = retry -/
+def completedRetryDecision (k : TaskKey) (idx : Nat) (ts : TaskSpec) (newStatus : Status) (ev : Event) :
+    M Bool := do
+  (if !(ts.withItems.isSome && newStatus.isAbended) then modifySt fun st => st.removeStaged k
+   else do
+     let c ← get
+     if (c.st.getStaged? k).isNone then throw .typeError
+     else modifySt fun st => st.updateStaged k fun x => { x with completed := true } : M Unit)
+  let ec ← makeTaskContext k idx (taskResult ts ev)
+  let c ← get
+  let r ← liftOpt c.st.sequence[idx]? .indexError
+  let dec : Except Err Bool :=
+    if c.st.status.isActive then evaluateTaskRetry E r ec else .ok false
+  match dec with
+  | .ok b => pure b
+  | .error e => do
+    logError e.className (some k.1) (some k.2)
+    requestStatus .failed
+    pure false
+
+/-- phase 5: evaluate the outbound transitions of a freshly completed record -/
+def evalTransitions (k : TaskKey) (idx : Nat) (ts : TaskSpec) (ev : Event) : M TransAcc := do
+  let ec ← makeTaskContext k idx (taskResult ts ev)
+  let c ← get
+  let trans := c.graph.nextTransitions k.1
+  (if trans.isEmpty then modifySt fun st => st.updateRec idx fun r => { r with term := true }
+   else pure () : M Unit)
+  let acc ← foldM' trans ({} : TransAcc) (processTransition E k idx ec)
+  (if acc.manualFail then
+     forEach acc.readyKeys fun nk => modifySt fun st => st.updateStaged nk fun x => { x with runOnFail := true }
+   else pure () : M Unit)
+  pure acc
+
+/-- mark the record terminal when the workflow has completed -/
+def markTermIfCompleted (idx : Nat) : M Unit := do
+  let c ← get
+  if c.st.status.isCompleted then modifySt fun st => st.updateRec idx fun r => { r with term := true }
+  else pure ()
 
 def updateTaskStateAux : Nat → TaskKey → Event → M Unit
   | 0, _, _ => throw (.machine .other)
@@ -515,42 +648,8 @@ def updateTaskStateAux : Nat → TaskKey → Event → M Unit
     let ts ← liftOpt (c.spec.getTask? k.1) .keyError
     if staged0.isNone && (c.st.getRec? k).isNone then throw .invalidTaskStateEntry
     else do
-    -- create a record if none exists or the task is an engine command
-    let idx ← (match rec0, isCmdName k.1 with
-      | some i, false => pure i
-      | _, _ => match staged0 with
-        | some sx => addTaskState E (k.1, sx.route) sx.ctxsIn sx.prev
-        | none => throw .typeError : M Nat)
-    -- a completed record receiving a starting status is a new cycle iteration
-    let c ← get
-    let r ← liftOpt c.st.sequence[idx]? .indexError
-    let idx ← (if r.status.any Status.isCompleted && ev.status.isStarting then
-        match staged0 with
-        | some sx => addTaskState E (k.1, sx.route) sx.ctxsIn sx.prev
-        | none => throw .typeError
-      else pure idx : M Nat)
-    -- remove from staging if the task is not with-items
-    (match staged0 with
-      | some sx => if sx.items.isNone then modifySt fun st => st.removeStaged k else pure ()
-      | none => pure () : M Unit)
-    -- record the item status
-    (match staged0, ev with
-      | some sx, .item i s _ _ =>
-        match sx.items with
-        | none => throw .keyError
-        | some its =>
-          if i < its.length then
-            modifySt fun st => st.updateStaged k fun x =>
-              { x with items := x.items.map fun l => l.set i s }
-          else throw .indexError
-      | _, _ => pure () : M Unit)
-    -- failed execution event is logged
-    (match ev with
-      | .action .failed res => logEntry { kind := "ExecutionFailed", taskId := some k.1, result := some res }
-      | .item _ .failed res _ => logEntry { kind := "ExecutionFailed", taskId := some k.1, result := some res }
-      | .engine c => if c.eventStatus == .failed then
-          logEntry { kind := "ExecutionFailed", taskId := some k.1, result := none } else pure ()
-      | _ => pure () : M Unit)
+    let idx ← ensureRecord E k staged0 rec0 ev
+    noteEvent k staged0 ev
     -- task state machine
     let c ← get
     let r ← liftOpt c.st.sequence[idx]? .indexError
@@ -559,68 +658,13 @@ def updateTaskStateAux : Nat → TaskKey → Event → M Unit
     let c ← get
     let r ← liftOpt c.st.sequence[idx]? .indexError
     let newStatus := r.status.getD .unset
-    -- retrying: bump the tally and re-stage
-    (if newStatus == .retrying then do
-        let rs ← liftOpt r.retry .keyError
-        let rs := { rs with tally := rs.tally + 1 }
-        modifySt fun st => ((st.updateRec idx fun r => { r with retry := some rs }).removeStaged k).addStaged
-          { id := k.1, route := k.2, ctxsIn := if r.ctxsIn.isEmpty then [0] else r.ctxsIn,
-            prev := r.prev, ready := true, retry := some rs }
-      else pure () : M Unit)
-    -- completed: staging clean-up, retry decision
-    let retried ← (if newStatus.isCompleted then do
-        (if !(ts.withItems.isSome && newStatus.isAbended) then modifySt fun st => st.removeStaged k
-         else do
-           let c ← get
-           if (c.st.getStaged? k).isNone then throw .typeError
-           else modifySt fun st => st.updateStaged k fun x => { x with completed := true } : M Unit)
-        let c ← get
-        let r ← liftOpt c.st.sequence[idx]? .indexError
-        let vars ← liftExcept (c.st.taskContext r.ctxsIn)
-        let result : Val := match ts.withItems, ev with
-          | none, .action _ res => res
-          | none, .item _ _ res _ => res
-          | none, .engine _ => .null
-          | some _, .item _ _ _ acc => (match acc with | some a => if a.truthy then a else .list [] | none => .list [])
-          | some _, .action _ res => if res.truthy then res else .list []
-          | some _, .engine _ => .list []
-        let ec : EvalCtx := { vars := vars, curTask := some k, result := some result, st := some c.st }
-        let dec : Except Err Bool :=
-          if c.st.status.isActive then evaluateTaskRetry E r ec else .ok false
-        match dec with
-        | .ok true => do
-          updateTaskStateAux fuel k (.engine .retry_)
-          pure true
-        | .ok false => pure false
-        | .error e => do
-          logError e.className (some k.1) (some k.2)
-          requestStatus .failed
-          pure false
-      else pure false : M Bool)
-    if retried then pure ()
+    restageRetry k idx
+    let retry ← (if newStatus.isCompleted then completedRetryDecision E k idx ts newStatus ev
+                 else pure false : M Bool)
+    if retry then updateTaskStateAux fuel k (.engine .retry_)
     else do
-    -- transitions
-    let acc ← (if newStatus.isCompleted && newStatus != oldStatus then do
-        let c ← get
-        let r ← liftOpt c.st.sequence[idx]? .indexError
-        let vars ← liftExcept (c.st.taskContext r.ctxsIn)
-        let result : Val := match ts.withItems, ev with
-          | none, .action _ res => res
-          | none, .item _ _ res _ => res
-          | none, .engine _ => .null
-          | some _, .item _ _ _ acc => (match acc with | some a => if a.truthy then a else .list [] | none => .list [])
-          | some _, .action _ res => if res.truthy then res else .list []
-          | some _, .engine _ => .list []
-        let ec : EvalCtx := { vars := vars, curTask := some k, result := some result, st := some c.st }
-        let trans := c.graph.nextTransitions k.1
-        (if trans.isEmpty then modifySt fun st => st.updateRec idx fun r => { r with term := true }
-         else pure () : M Unit)
-        let acc ← foldM' trans ({} : TransAcc) (processTransition E k idx ec)
-        (if acc.manualFail then
-           forEach acc.readyKeys fun nk => modifySt fun st => st.updateStaged nk fun x => { x with runOnFail := true }
-         else pure () : M Unit)
-        pure acc
-      else pure {} : M TransAcc)
+    let acc ← (if newStatus.isCompleted && newStatus != oldStatus then evalTransitions E k idx ts ev
+               else pure {} : M TransAcc)
     -- workflow state machine
     let c ← get
     let r ← liftOpt c.st.sequence[idx]? .indexError
@@ -631,35 +675,32 @@ def updateTaskStateAux : Nat → TaskKey → Event → M Unit
       match Cmd.ofStr? nk.1 with
       | some cmd => updateTaskStateAux fuel nk (.engine cmd)
       | none => pure ()
-    let c ← get
-    if c.st.status.isCompleted then modifySt fun st => st.updateRec idx fun r => { r with term := true }
-    else pure ()
+    markTermIfCompleted idx
 
 def updateTaskState (k : TaskKey) (ev : Event) : M Unit := updateTaskStateAux E 3 k ev
 
 /-! ## output -/
 
 /-- `get_workflow_terminal_context()` -/
-def terminalContext (c : Cond) : Except Err Val.Dict :=
-  if !c.st.status.isCompleted then .error .workflowContextError
+def terminalContext : M Val.Dict := do
+  let c ← get
+  if !c.st.status.isCompleted then throw .workflowContextError
   else
     match c.st.terminalRecs with
-    | [] => .ok []
+    | [] => pure []
     | (_, first) :: others => do
-      let base ← c.st.taskContext first.ctxsIn
-      others.foldlM (fun acc (p : Nat × Rec) => do
-        let idxs ← (match eraseFirst p.2.ctxsIn 0 with
-          | some l => .ok l
-          | none => .error .valueError)
-        let cx ← c.st.taskContext idxs
-        pure (Val.mergeDicts acc cx)) base
+      let base ← liftExcept (c.st.taskContext first.ctxsIn)
+      foldM' others base fun acc p => do
+        let idxs ← liftOpt (eraseFirst p.2.ctxsIn 0) .valueError
+        let cx ← liftExcept (c.st.taskContext idxs)
+        pure (Val.mergeDicts acc cx)
 
 /-- `render_workflow_output()` -/
 def renderOutput : M Unit := do
   let c ← get
   let outEmpty := match c.output with | none => true | some d => d.isEmpty
   if c.st.status.isCompleted && outEmpty then do
-    let ctx ← liftExcept (terminalContext c)
+    let ctx ← terminalContext
     let (_, outs, nerr) := renderSeq E c.spec.output (fun r => { vars := r, st := some c.st }) ctx
     (if !outs.isEmpty then modify fun c => { c with output := some outs } else pure () : M Unit)
     if nerr > 0 then do
@@ -746,13 +787,13 @@ def requestRerun (reqs : List RerunReq) : M Unit := do
           pure ((c.st.terminalRecs.filter fun p => p.2.status.any Status.isAbended).foldl
             (fun acc p => setAssoc acc ((p.2.id, p.2.route) : TaskKey) p.1) ([] : List (TaskKey × Nat)))
         else do
-          let seqs ← tasks.mapM fun t => do
+          let seqs ← mapM' tasks fun t => do
             let s ← liftExcept (taskSequence c.st (t.taskId, t.route))
             pure (((t.taskId, t.route) : TaskKey), s)
           let kept := if tasks.length > 1 then
               seqs.filter fun p => seqs.any fun q => p.2.any fun i => !q.2.contains i
             else seqs
-          kept.mapM fun p => do
+          mapM' kept fun p => do
             let i ← liftOpt (c.st.taskIdx? p.1) .keyError
             pure (p.1, i) : M (List (TaskKey × Nat)))
       modifySt fun st => { st with reruns := st.reruns ++ [cands.map (·.2)] }
